@@ -24,6 +24,7 @@ type nodeEntry struct {
 	refCount          int
 	attr              fuseops.InodeAttributes
 	pathToBackingFile string // empty for directory
+	unlinked          bool   // the entry has been removed from its directory
 }
 
 func (g *iNodeGenerator) allocINode() fuseops.InodeID {
